@@ -169,9 +169,10 @@ def one(scn, i, o, m):
     return core.run_impl(base.mini(scn, i, [(m, 0, False, False, o)]))[0]
 
 
-def iterate(scn, i, full, start):
+def iterate(scn, i, full, start, one=one):
     """-> (outcome, rounds, failure detail or None).  Each round checks complete/sound on the
-    current dictionary, then adds the listed absent keys from the sufficient dictionary."""
+    current dictionary, then adds the listed absent keys from the sufficient dictionary.
+    one(scn, i, dictionary, method): how the object is asked (default: a freshly built expression)"""
     d = deep(start)
     bound = len(leaves(full)) + 2
     for rnd in range(bound + 1):
@@ -298,6 +299,287 @@ def late_history(late, o):
     return lines, q
 
 
+# ----------------------------------------------------------------------------- option namespaces
+#
+# A namespace scenario: dict(ftable, env, ns, ...) with ns = dict(name=atom, style, members=[(attr atom, spec)]):
+#   style   top level: "bare" (@Option.namespace class NAME) | "named" (@Option.namespace("NAME") class Anon)
+#           nested:    the same two, or "implicit" (a plain nested class NAME)
+#   spec    ("ann",)                    NAME: T                                  -> Option(<ns>.NAME)
+#           ("anndefault", json)        NAME: T = json                           -> Option(<ns>.NAME, json)
+#           ("default", json)           NAME = json                              -> Option(<ns>.NAME, json)
+#           ("evdefault", expr)         NAME = <evaluatable>                     -> Option(<ns>.NAME, default=<evaluatable>)
+#           ("option", atom, d, dom)    ATTR = Option("KEY"[, d][, domain=dom])  -> Option(<ns>.KEY[, d][, domain=dom])
+#           ("auto", d, [fid...], dom)  NAME = Option.auto([default=d][, domain=dom]) >> f...  -> Option(<ns>.NAME[, d][, domain=dom]) >> f ...
+#           ("ns", ns')                 a nested namespace                       -> its members under <ns>.<name'>
+#   d: None (no default) or a JSON scalar wrapped as ("j", json); dom: None or a JSON list (a container of the allowed values).
+# What the namespace stands for is computed HERE from the documentation of Option.namespace / Option.auto
+# (ns_members): annotated members first, then the others in declaration order, nested members in place.  For
+# explain / keys / validate a namespace must behave like the collection of those options, and each member
+# reached by attribute access (NS.NAME, NS.SUB.NAME) like its own option.
+
+NS_NAMES = [20, 23, 26, 27]
+NS_ATTRS = [10, 11, 12, 21, 22, 24, 25, 28, 29]
+
+
+def dflt(d):
+    return None if d is None else ("value", d)
+
+
+def member_expr(path, attr, spec):
+    k = spec[0]
+    if k == "ann":
+        return opt(K(*path, attr))
+    if k in ("anndefault", "default"):
+        return opt(K(*path, attr), val(spec[1]))
+    if k == "evdefault":
+        return opt(K(*path, attr), spec[1])
+    dom = None if spec[-1] is None else val(spec[-1])
+    if k == "option":
+        return opt(K(*path, spec[1]), dflt(spec[2]), dom)
+    if k == "auto":
+        e = opt(K(*path, attr), dflt(spec[1]), dom)
+        for f in spec[2]:
+            e = ("apply", e, ("fnvalue", f))
+        return e
+    raise TypeError(spec)
+
+
+def ordered(ns):
+    return [m for m in ns["members"] if m[1][0] in ("ann", "anndefault")] + [m for m in ns["members"] if m[1][0] not in ("ann", "anndefault")]
+
+
+def ns_members(ns, path):
+    out = []
+    for attr, spec in ordered(ns):
+        if spec[0] == "ns":
+            out += ns_members(spec[1], path + (spec[1]["name"],))
+        else:
+            out.append(member_expr(path, attr, spec))
+    return out
+
+
+def ns_targets(ns, path, attrs=()):
+    """every askable object: (attribute path from the root, expression it stands for)"""
+    out = [(attrs, ("list", ns_members(ns, path)))]
+    for attr, spec in ns["members"]:
+        if spec[0] == "ns":
+            out += ns_targets(spec[1], path + (spec[1]["name"],), attrs + (attr,))
+        else:
+            out.append((attrs + (attr,), member_expr(path, attr, spec)))
+    return out
+
+
+def build_ns(b, ns):
+    from labrea import Option
+    ann, body = {}, {}
+    for attr, spec in ns["members"]:
+        nm, k = core.name_of(attr), spec[0]
+        if k in ("ann", "anndefault"):
+            ann[nm] = int
+        if k in ("anndefault", "default"):
+            body[nm] = core.py_json(spec[1])
+        elif k == "evdefault":
+            body[nm] = b.build(spec[1])
+        elif k == "option":
+            kw = {} if spec[3] is None else dict(domain=core.py_json(spec[3]))
+            body[nm] = Option(core.name_of(spec[1]), **kw) if spec[2] is None else Option(core.name_of(spec[1]), core.py_value(spec[2]), **kw)
+        elif k == "auto":
+            kw = {} if spec[3] is None else dict(domain=core.py_json(spec[3]))
+            a = Option.auto(doc="d", **kw) if spec[1] is None else Option.auto(default=core.py_value(spec[1]), doc="d", **kw)
+            for f in spec[2]:
+                a = a >> b.w.fn(f)
+            body[nm] = a
+        elif k == "ns":
+            body[nm] = build_ns(b, spec[1])
+    if ann:
+        body["__annotations__"] = ann
+    name = core.name_of(ns["name"])
+    if ns["style"] == "named":
+        return Option.namespace(name)(type("Anon", (), body))
+    c = type(name, (), body)
+    return c if ns["style"] == "implicit" else Option.namespace(c)
+
+
+def ns_object(nscn, attrs):
+    w = core.World(nscn["ftable"])
+    obj = build_ns(core.Builder(w, nscn["env"]), nscn["ns"])
+    for a in attrs:
+        obj = getattr(obj, core.name_of(a))
+    return w, obj
+
+
+def ns_eff(nscn, expr):
+    return dict(ftable=nscn["ftable"], env=nscn["env"], exprs=[expr], ops=[])
+
+
+def ns_quad(nscn, attrs, o):
+    """explain / keys / validate on a freshly built namespace (these graphs hold no cache and no other state, so one
+    build serves the three questions; evaluate is not part of C11 and is not asked)"""
+    po = core.py_json(o)
+    w, obj = ns_object(nscn, attrs)
+    q = {m: base.ask_obj(w, obj, m, po) for m in ("explain", "keys", "validate")}
+    q["evaluate"] = "ok:?|"
+    return q
+
+
+def gen_ns(rng, g, depth, top, used):
+    name = rng.choice([a for a in NS_NAMES if a not in used] or NS_NAMES)
+    used = used | {name}
+    style = rng.choice(["bare", "named"] if top else ["implicit", "implicit", "bare", "named"])
+    members, attrs = [], rng.sample(NS_ATTRS, rng.randint(2, 5))
+    sc = lambda: ("j", rng.choice([0, 1, 2, 5, lit("a"), lit("b"), True, None]))  # noqa
+    dom = lambda: [0, 1, 2, lit("a"), None] if rng.random() < 0.15 else None  # noqa
+    for attr in attrs:
+        r = rng.random()
+        if r < 0.16:
+            spec = ("ann",)
+        elif r < 0.22:
+            spec = ("anndefault", sc()[1])
+        elif r < 0.32:
+            spec = ("default", sc()[1])
+        elif r < 0.38:
+            spec = ("evdefault", rng.choice([val(3), ("template", (("lit", "p"), ("ref", K(13))), []), ("call", g.newf(("tag",)), [opt(K(13))]),
+                                             ("apply", opt(K(14), val(1)), ("fnvalue", g.newf(("tag",))))]))     # (an Option would be a KEY declaration)
+        elif r < 0.50:
+            spec = ("option", rng.choice([a for a in NS_ATTRS if a not in attrs] or [attr]) if rng.random() < 0.5 else attr,
+                    sc() if rng.random() < 0.4 else None, dom())
+        else:
+            spec = ("auto", sc() if rng.random() < 0.35 else None, [g.newf(("tag",)) for _ in range(rng.choice([0, 0, 1, 1, 2]))], dom())
+        members.append((attr, spec))
+    if depth > 0 and rng.random() < 0.6:
+        for _ in range(rng.randint(1, 2)):
+            sub = gen_ns(rng, g, depth - 1, False, used)
+            used = used | {sub["name"]}
+            attr = sub["name"] if sub["style"] == "implicit" or rng.random() < 0.6 else rng.choice([28, 29])
+            if attr not in [a for a, _ in members] and sub["name"] not in [s[1]["name"] for _, s in members if s[0] == "ns"]:
+                members.insert(rng.randint(0, len(members)), (attr, ("ns", sub)))
+    # two members do not denote the same option key (an explicit Option("KEY") may name another member's attribute)
+    seen, keep = set(), []
+    for attr, spec in members:
+        key = spec[1] if spec[0] == "option" else (spec[1]["name"] if spec[0] == "ns" else attr)
+        if key not in seen:
+            seen.add(key)
+            keep.append((attr, spec))
+    return dict(name=name, style=style, members=keep)
+
+
+def namespace_scenario(rng):
+    g = gen.Gen(rng)
+    ns = gen_ns(rng, g, 2, True, frozenset())
+    nscn = dict(ftable=dict(g.ftable), env={}, exprs=[], ops=[], ns=ns)
+    full = {}
+    root = ("list", ns_members(ns, (ns["name"],)))
+    keys = sorted(set(base.option_keys(ns_eff(nscn, root), root)), key=core.key_order)
+    bounded = {x[1] for x in base.nodes(ns_eff(nscn, root), root) if x[0] == "option" and x[3] is not None}
+    for k in keys:             # the sufficient dictionary keeps every value inside its declared domain
+        base.set_key(full, k, rng.choice([0, 1, 2, lit("a")] if k in bounded else [0, 1, 2, 5, lit("a"), lit("b"), True]))
+    return nscn, full, keys, sorted(bounded, key=core.key_order)
+
+
+def namespace_stream(ctx, n):
+    """-> dict(raw, violations, checks, ops, mismatches, iterative): for the namespace, every nested namespace and
+    members reached by attribute access: the C11 oracles under the sufficient dictionary, the dictionary without
+    each key in turn, without each section, with an unrecognised member, and the empty one; the iterative use from
+    every sub-dictionary (exhaustive up to 6 keys, else from single keys); correspondence with the model on the
+    collection of the effective options"""
+    rng = ctx.rng
+    raw, viol, checks, items, it_stats, subdicts, kinds = [], [], 0, [], {}, 0, {}
+    for _ in range(n):
+        nscn, full, keys, bounded = namespace_scenario(rng)
+        for _, spec in ordered(nscn["ns"]):
+            kinds[spec[0]] = kinds.get(spec[0], 0) + 1
+        pool = [full, {}]
+        for k in keys:
+            o = base.deep_copy(full)
+            base.del_key(o, k)
+            pool.append(o)
+        for sec in {k[:-1] for k in keys if len(k) > 1}:
+            o = base.deep_copy(full)
+            base.del_key(o, sec)
+            pool.append(o)
+        o = base.deep_copy(full)
+        base.set_key(o, K(nscn["ns"]["name"], 31), 1)         # a member the namespace does not declare
+        pool.append(o)
+        for k in bounded[:2]:                                 # a value outside the declared domain
+            o = base.deep_copy(full)
+            base.set_key(o, k, 5)
+            pool.append(o)
+        targets = ns_targets(nscn["ns"], (nscn["ns"]["name"],))
+        spaces = [t for t in targets if t[1][0] == "list"]
+        leafs = [t for t in targets if t[1][0] != "list"]
+        for attrs, expr in spaces + rng.sample(leafs, min(2, len(leafs))):
+            eff = ns_eff(nscn, expr)
+            for o in pool:
+                q = ns_quad(nscn, attrs, o)
+                checks += 1
+                fails = oracle_c11(eff, 0, o, q, None)
+                if not fails:
+                    continue
+                lk = {}
+                for kind, detail, cands in oracle_c11(eff, 0, o, quad(eff, 0, o, None), None):
+                    lk.setdefault(kind, (detail, cands))
+                for kind, detail, cands in fails:
+                    if kind in lk:               # the options themselves fail the same way outside any namespace
+                        raw.append((eff, 0, o, None, kind) + lk[kind])
+                    else:
+                        viol.append(ns_violation(nscn, attrs, expr, o, kind, detail, q))
+            if expr[0] == "list":
+                ops = [(m, 0, False, False, o) for o in rng.sample(pool, min(4, len(pool))) for m in ("explain", "keys", "validate")]
+                w, obj = ns_object(nscn, attrs)
+                il = [base.ask_obj(w, obj, m, core.py_json(o)) for m, _, _, _, o in ops]
+                items.append((il, dict(eff, ops=ops), cp.dump_scn(dict(nscn, attrs=attrs))))
+        # the iterative use on the namespace itself
+        eff = ns_eff(nscn, spaces[0][1])
+        ls = leaves(full)
+        starts = [sub for r in range(len(ls) + 1) for sub in itertools.combinations(ls, r)] if len(ls) <= 6 else [()] + [(p,) for p in ls]
+
+        w0, obj0 = ns_object(nscn, ())
+
+        def one_ns(scn_, i_, d, m):
+            return base.ask_obj(w0, obj0, m, core.py_json(d))
+        for sub in starts:
+            subdicts += 1
+            start = sub_dict(full, sub)
+            outcome, rounds, detail = iterate(eff, 0, full, start, one=one_ns)
+            it_stats[outcome] = it_stats.get(outcome, 0) + 1
+            if outcome == "violation":
+                o = eval(detail["dictionary"], {"S": S})
+                viol.append(ns_violation(nscn, (), spaces[0][1], o, detail["kind"], dict(detail, sufficient=repr(full), start=repr(start), rounds=rounds),
+                                         ns_quad(nscn, (), o), iterate_from=(repr(full), repr(start))))
+    nops, mism = base.live_correspondence(ctx, "Namespaces_C11", items, "option namespace vs Model/Eval.v on the collection of its effective options")
+    return dict(raw=raw, violations=viol, checks=checks, ops=nops, mismatches=mism, scenarios=n, member_kinds=kinds,
+                iterative=dict(sub_dictionaries=subdicts, outcomes=it_stats))
+
+
+def ns_violation(nscn, attrs, expr, o, kind, detail, q, iterate_from=None):
+    return dict(desc="option namespace: " + DESC[kind], family="namespace", oracle=kind, options=repr(o), detail=detail, finding=None,
+                asked=".".join(core.name_of(a) for a in attrs) or "<the namespace>", stands_for=repr(expr)[:600],
+                observed={m: res_of(q[m]) for m in ("explain", "keys", "validate")}, attrs=list(attrs), iterate_from=iterate_from,
+                scenario_repr=cp.dump_scn(nscn))
+
+
+def replay_namespace(ctx, payload):
+    nscn = cp.load_scn(payload["scenario_repr"])
+    attrs = tuple(payload["attrs"])
+    o = eval(payload["options"], {"S": S})
+    expr = dict(ns_targets(nscn["ns"], (nscn["ns"]["name"],)))[attrs]
+    eff = ns_eff(nscn, expr)
+    q = ns_quad(nscn, attrs, o)
+    mine = {k: d for k, d, c in oracle_c11(eff, 0, o, q, None)}
+    theirs = {k for k, d, c in oracle_c11(eff, 0, o, quad(eff, 0, o, None), None)}
+    fails = [(k, d) for k, d in mine.items() if k not in theirs]
+    if payload.get("iterate_from"):
+        full, start = (eval(x, {"S": S}) for x in payload["iterate_from"])
+
+        def one_ns(scn_, i_, d, m):
+            w, obj = ns_object(nscn, ())
+            return base.ask_obj(w, obj, m, core.py_json(d))
+        outcome, rounds, detail = iterate(eff, 0, full, start, one=one_ns)
+        if outcome == "violation":
+            fails.append(("iterate", detail))
+    return bool(fails), dict(oracle_failures=fails, failures_of_the_options_themselves=sorted(theirs & set(mine)), observed=q, stands_for=repr(expr))
+
+
 # ----------------------------------------------------------------------------- witnesses (C11 shapes)
 
 A, B, P, SEC, X = 10, 11, 13, 20, 21
@@ -328,37 +610,60 @@ def run(ctx):
     impls, models, mism, stats = cp.correspondence(ctx, hist, "Cases_C11")
     it_raw, it_stats = run_iterative(ctx, cases, 60 if ctx.quick else 600)
     late_raw, late_checks = late_registration(ctx, 40 if ctx.quick else 400)
+    nsp = namespace_stream(ctx, 50 if ctx.quick else 500)
+    cl = base.class_stream(ctx, PID, 60 if ctx.quick else 600, oracle_c11, DESC)
+    hs = base.history_stream(ctx, PID, 60 if ctx.quick else 600, oracle_c11, DESC, ("explain", "keys", "validate"))
     violations, checks, distinct, dist, tagged = base.run_oracles(ctx, PID, cases, oracle_c11, DESC, 3 if ctx.quick else 4,
-                                                                  extra=it_raw + late_raw)
+                                                                  extra=it_raw + late_raw + nsp["raw"] + cl["raw"])
+    violations += nsp["violations"][:25] + cl["violations"][:25] + hs["violations"][:25]
+    mism = mism + nsp["mismatches"] + cl["mismatches"] + hs["mismatches"]
     known = [dict(id=fid, still_fails=base.witness_fails(WIT[fid], oracle_c11), what=WIT[fid]["what"]) for fid in KNOWN]
     sample = []
     for scn, pool in cases[-3:]:
         q = base.quad_cold(scn, 0, pool[0])
         sample.append(dict(expr=repr(scn["exprs"][0])[:300], options=repr(pool[0])[:160], observed={m: q[m][:80] for m in METHODS}))
     return {
-        "evaluations": stats["ops"] + 4 * checks + 2 * it_stats["sub_dictionaries"] + 6 * late_checks,
+        "evaluations": stats["ops"] + 4 * checks + 2 * it_stats["sub_dictionaries"] + 6 * late_checks + 4 * nsp["checks"] + nsp["ops"]
+                       + 2 * nsp["iterative"]["sub_dictionaries"] + 4 * cl["checks"] + cl["ops"] + 3 * hs["checks"] + hs["ops"],
         "distinct_nontrivial": len(distinct),
         "rule": "C01 profile (see C10); for every (expression, dictionary of an adversarially perturbed pool, cold / warm / warm-other graph): "
                 "explain vs keys vs validate. Iterative use: for sufficient dictionaries with 1-6 leaf keys EVERY sub-dictionary (exhaustive) is "
                 "completed by adding what explain lists until validate passes. Late registration: an implementation is registered on a dataset below the "
-                "asked one between two rounds of questions for the same dictionary. Non-trivial = the four methods do not all succeed nor all fail; "
+                "asked one between two rounds of questions for the same dictionary. Option namespaces (@Option.namespace bare / named / nested implicit, members: "
+                "annotated, plain defaults, evaluatable defaults, Option(KEY), Option.auto() with defaults and >> transformations): the namespace, nested "
+                "namespaces and members reached by attribute access, under the sufficient dictionary and its neighbours, the iterative use from every "
+                "sub-dictionary, and the namespace against the model on the collection of its effective options. Dataset classes (see C10). Histories of "
+                "public mutators on a dataset / its parent / a sibling / a dependency with every object asked (explain() without argument, {} and others) "
+                "after every step; after register/overload-only histories the answers are compared with the model on the graph declared up front. Non-trivial = the four methods do not all succeed nor all fail; "
                 "distinct by hash of (expression, dictionary, first dictionary).",
         "samples": sample,
-        "traces_validated_against_impl": stats["ops"],
+        "traces_validated_against_impl": stats["ops"] + nsp["ops"] + cl["ops"] + hs["ops"],
         "correspondence_mismatches": mism[:5],
         "violations": violations,
         "known": known,
         "distribution": dict(stats, quadruples=checks, outcome_patterns_validate_keys_explain_evaluate=dist, oracle_failures_tagged=tagged,
-                             scenarios=len(cases), iterative=it_stats, late_registration_histories=late_checks, excluded=dict(EXCLUDED)),
+                             scenarios=len(cases), iterative=it_stats, late_registration_histories=late_checks, excluded=dict(EXCLUDED),
+                             namespaces={k: v for k, v in nsp.items() if k not in ("raw", "violations", "mismatches")},
+                             dataset_classes=dict(scenarios=cl["scenarios"], quadruples=cl["checks"], ops_vs_model=cl["ops"], patterns=cl["patterns"]),
+                             mutator_histories=dict(histories=hs["histories"], moments_asked=hs["checks"], ops_vs_model=hs["ops"], mutators=hs["mutators"])),
         "exhaustive": False,
         "assumptions": ["'absent from o' is decided on the python dictionary by this module's own walk (dict membership, list index in range)",
                         "an exception raised directly by a partial bind function / case predicate of the harness (user code, not an EvaluationError) leaving explain() is the user's failure, not counted",
                         "the theorems are about the cache-free reference instance; cold/warm caches are covered by this run only (PARTIAL)"],
-        "trusted_base": ["chooser positions are recomputed from the scenario syntax tree (props/c10.py), independently of the model"],
+        "trusted_base": ["chooser positions are recomputed from the scenario syntax tree (props/c10.py), independently of the model",
+                         "what an option namespace stands for (annotated members first, declaration order, nested members in place, Option.auto key = "
+                         "<namespace>.<attribute>, >> = apply) and what a dataset class stands for are computed by the harness from the scenario; the "
+                         "model runs the collection of those options / members (it has no namespaces or classes)"],
     }
 
 
 def replay(ctx, payload):
+    if payload.get("family") == "namespace":
+        return replay_namespace(ctx, payload)
+    if payload.get("family") == "class":
+        return base.replay_class(ctx, payload, oracle_c11)
+    if payload.get("family") == "history":
+        return base.replay_history(ctx, payload, oracle_c11, ("explain", "keys", "validate"))
     scn = cp.load_scn(payload["scenario_repr"])
     i = payload["expr_index"]
     o = eval(payload["options"], {"S": S})
